@@ -390,7 +390,13 @@ fn gen_program_once(r: &mut Rng, o: &GenOpts) -> GenProgram {
                 g.tags.insert("near_tc");
                 arity.insert(name.clone(), 2);
                 let v = |s: &str| Term::Var(s.to_string());
+                let idb2: Vec<String> = avail.iter().filter(|(n, a)| *a == 2 && n.starts_with('p')).map(|(n, _)| n.clone()).collect();
                 let edge = |g: &mut G, x: &str, y: &str| -> Atom {
+                    // sometimes the edge relation is itself derived (an earlier binary IDB)
+                    if !idb2.is_empty() && g.pct(25) {
+                        g.tags.insert("tc_over_idb");
+                        return Atom { rel: idb2[g.r.below(idb2.len())].clone(), args: vec![v(x), v(y)] };
+                    }
                     match g.r.below(10) {
                         0..=5 => Atom { rel: "a".into(), args: vec![v(x), v(y)] },
                         6..=8 => Atom { rel: "b".into(), args: vec![v(x), v(y)] },
